@@ -752,7 +752,7 @@ class Emitter:
             for x in v.els: yield from s.regs_in(x)
 
     def proto(s, fn):
-        ps = ', '.join(s.cdecl(t, 'v_' + cid(n)) if n else s.cdecl(t) for t, n in fn.params) or 'void'
+        ps = ', '.join(s.cdecl(t, 'v_' + cid(n)) if n else s.cdecl(t, 'v_%d' % i) for i, (t, n) in enumerate(fn.params)) or 'void'
         if fn.va: ps += ', ...'
         return s.cdecl(fn.ret, '%s(%s)' % (s.gname(fn.name), ps))
 
@@ -786,6 +786,8 @@ class Emitter:
 
     def emit_func(s, fn):
         s.rpo(fn)
+        s._defs = {ins.res: ins for b in fn.blocks for ins in b.ins if ins.res}
+        s._fn = fn
         o = []
         o.append(s.proto(fn) + '\n{')
         # declare regs
@@ -1022,8 +1024,47 @@ class Emitter:
                 if n.startswith('llvm.ctpop'): return '%sLL2C_POPCOUNT(%s);' % (R, A[0])
                 if n.startswith('llvm.cttz'): return '%sLL2C_CTTZ%d(%s);' % (R, s.resolve(ins.ty).n, A[0])
                 if n.startswith('llvm.ctlz'): return '%sLL2C_CTLZ%d(%s);' % (R, s.resolve(ins.ty).n, A[0])
-                if n.startswith('llvm.memcpy') or n.startswith('llvm.memmove'): return 'memmove(%s, %s, %s);' % (A[0], A[1], A[2])
-                if n.startswith('llvm.memset'): return 'memset(%s, %s, %s);' % (A[0], A[1], A[2])
+                if n.startswith('llvm.memcpy') or n.startswith('llvm.memmove'):
+                    # whole-object copy of a typed struct (e.g. the Position copy in a constructor): emit a struct
+                    # assignment, which CBMC handles per field, instead of a byte-wise copy inside a possibly huge object
+                    def typed(v):
+                        for _ in range(4):
+                            if v.kind == 'reg' and v.name in s._defs and s._defs[v.name].op == 'cast' and s._defs[v.name].cop == 'bitcast': v = s._defs[v.name].src
+                            else: break
+                        t = v.ty
+                        if v.kind == 'reg' and v.name in s._defs and s._defs[v.name].op == 'gep':
+                            s.gep(s._defs[v.name].bty, s._defs[v.name].base, s._defs[v.name].idx); t = s._gep_result_type
+                        return v, t
+                    (d, dt), (sv, stt) = typed(args[0]), typed(args[1])
+                    dpath = spath = ''
+                    if args[2].kind == 'int' and isinstance(dt, TPtr) and isinstance(stt, TPtr):
+                        # a copy into/out of the leading member(s): descend to the member whose type matches the other side
+                        import layout as _lay
+                        for _ in range(4):
+                            if repr(dt.to) == repr(stt.to): break
+                            try: dsz, ssz = _lay.size_align(s.m, dt.to)[0], _lay.size_align(s.m, stt.to)[0]
+                            except Exception: break
+                            if dsz > ssz and isinstance(s.resolve(dt.to), TStruct): dt = TPtr(s.resolve(dt.to).els[0]); dpath += '.f0'
+                            elif ssz > dsz and isinstance(s.resolve(stt.to), TStruct): stt = TPtr(s.resolve(stt.to).els[0]); spath += '.f0'
+                            else: break
+                    if args[2].kind == 'int' and isinstance(dt, TPtr) and isinstance(stt, TPtr) and repr(dt.to) == repr(stt.to) and isinstance(s.resolve(dt.to), TStruct):
+                        try:
+                            import layout as _lay
+                            sz, _ = _lay.size_align(s.m, dt.to)
+                        except Exception:
+                            sz = None
+                        if sz == args[2].val:
+                            return '(*%s)%s = (*%s)%s;' % (s.val(d), dpath, s.val(sv), spath)
+                    # constant-size copy between typed integer arrays (e.g. std::copy of history keys): element-wise through a
+                    # temporary (memmove semantics), unrolled -- CBMC's byte-wise memmove inside a large struct is very costly
+                    if args[2].kind == 'int' and isinstance(dt, TPtr) and isinstance(stt, TPtr) and isinstance(s.resolve(dt.to), TInt) and repr(s.resolve(dt.to)) == repr(s.resolve(stt.to)):
+                        w = max(1, s.resolve(dt.to).n // 8)
+                        if args[2].val % w == 0 and 0 < args[2].val // w <= 512:
+                            cnt = args[2].val // w; ct = s.cdecl(s.resolve(dt.to))
+                            return '{ %s ll2c_tmp[%d]; %s *ll2c_s = %s; %s *ll2c_d = %s; %s %s }' % (ct, cnt, ct, s.val(sv), ct, s.val(d),
+                                   ' '.join('ll2c_tmp[%d] = ll2c_s[%d];' % (k, k) for k in range(cnt)), ' '.join('ll2c_d[%d] = ll2c_tmp[%d];' % (k, k) for k in range(cnt)))
+                    return 'memmove(%s, %s, %s);' % (A[0], A[1], A[2])
+                if n.startswith('llvm.memset'): return 'LL2C_MEMSET(%s, %s, %s);' % (A[0], A[1], A[2])
                 for nm in ('umin', 'umax'):
                     if n.startswith('llvm.' + nm): return '%s(%s %s %s ? %s : %s);' % (R, A[0], '<' if nm == 'umin' else '>', A[1], A[0], A[1])
                 for nm in ('smin', 'smax'):
